@@ -1,0 +1,55 @@
+//go:build verif
+
+// Contracts for the deductive verification in /verif (comment-only; compiled code is unaffected).
+package main
+
+// C10: after a successful import the stored watermarks dominate every value in the file and every value held before.
+
+//@ spec keyOfHex(s string) [48]byte
+//@ spec trim0x(s string) string
+//@ spec parsed(s string) int
+//@ spec fileKey(d *SlashingProtectionData) [48]byte = keyOfHex(trim0x(d.PublicKey))
+
+//@ func initRules
+//@ ensures result1 == nil ==> result0 != nil
+
+// what the store will hold for key k once the map pm has been imported (a field of -1 leaves that kind alone)
+//@ spec finL(pm map[[48]byte]*rules.SlashingProtection, k [48]byte) int = if k in pm && pm[k].HighestProposedSlot != 0 - 1 then pm[k].HighestProposedSlot else wmPropL(bytes(k))
+//@ spec finS(pm map[[48]byte]*rules.SlashingProtection, k [48]byte) int = if k in pm && pm[k].HighestAttestedSourceEpoch != 0 - 1 then pm[k].HighestAttestedSourceEpoch else wmAttS(bytes(k))
+//@ spec finT(pm map[[48]byte]*rules.SlashingProtection, k [48]byte) int = if k in pm && pm[k].HighestAttestedSourceEpoch != 0 - 1 then pm[k].HighestAttestedTargetEpoch else wmAttT(bytes(k))
+// a record never goes below what the store holds, and its attestation pair is either absent or complete
+//@ spec recOK(r *rules.SlashingProtection, k [48]byte) bool = r != nil && r.HighestProposedSlot >= 0 - 1 && r.HighestAttestedSourceEpoch >= 0 - 1 && r.HighestAttestedTargetEpoch >= 0 - 1 && r.HighestProposedSlot >= wmPropL(bytes(k)) && r.HighestAttestedSourceEpoch >= wmAttS(bytes(k)) && r.HighestAttestedTargetEpoch >= wmAttT(bytes(k)) && (r.HighestAttestedSourceEpoch == 0 - 1 ==> r.HighestAttestedTargetEpoch == 0 - 1)
+// the watermarks in the store are never below -1, and an attestation record has both halves
+//@ spec storeWf() bool = forall k [48]byte :: wmPropL(bytes(k)) >= 0 - 1 && wmAttS(bytes(k)) >= 0 - 1 && wmAttT(bytes(k)) >= 0 - 1 && (wmAttS(bytes(k)) == 0 - 1 ==> wmAttT(bytes(k)) == 0 - 1)
+
+//@ func mergeSlashingProtection
+//@ requires dst != nil && src != nil
+//@ modifies dst.HighestProposedSlot, dst.HighestAttestedSourceEpoch, dst.HighestAttestedTargetEpoch
+//@ ensures [max] dst.HighestProposedSlot == max(old(dst.HighestProposedSlot), src.HighestProposedSlot) && dst.HighestAttestedSourceEpoch == max(old(dst.HighestAttestedSourceEpoch), src.HighestAttestedSourceEpoch) && dst.HighestAttestedTargetEpoch == max(old(dst.HighestAttestedTargetEpoch), src.HighestAttestedTargetEpoch)
+
+//@ func storeSlashingProtection
+//@ requires [storewf] storeWf()
+//@ modifies db
+//@ ensures [blocks] result == nil ==> (forall i int, j int :: 0 <= i && i < len(protection.Data) && 0 <= j && j < len(protection.Data[i].SignedBlocks) ==> wmPropL(bytes(fileKey(protection.Data[i]))) >= parsed(protection.Data[i].SignedBlocks[j].Slot))
+//@ ensures [sources] result == nil ==> (forall i int, j int :: 0 <= i && i < len(protection.Data) && 0 <= j && j < len(protection.Data[i].SignedAttestations) ==> wmAttS(bytes(fileKey(protection.Data[i]))) >= parsed(protection.Data[i].SignedAttestations[j].SourceEpoch))
+//@ ensures [targets] result == nil ==> (forall i int, j int :: 0 <= i && i < len(protection.Data) && 0 <= j && j < len(protection.Data[i].SignedAttestations) ==> wmAttT(bytes(fileKey(protection.Data[i]))) >= parsed(protection.Data[i].SignedAttestations[j].TargetEpoch))
+//@ ensures [neverlower] result == nil ==> (forall k [48]byte :: wmPropL(bytes(k)) >= old(wmPropL(bytes(k))) && wmAttS(bytes(k)) >= old(wmAttS(bytes(k))) && wmAttT(bytes(k)) >= old(wmAttT(bytes(k))))
+//@ loop #1
+//@ invariant [range] 0 <= _n && _n <= len(protection.Data) && protectionMap != nil && fresh(protectionMap) && db == old(db)
+//@ invariant [existing] forall k [48]byte :: k in existingProtection ==> existingProtection[k] != nil && existingProtection[k].HighestProposedSlot == wmPropL(bytes(k)) && existingProtection[k].HighestAttestedSourceEpoch == wmAttS(bytes(k)) && existingProtection[k].HighestAttestedTargetEpoch == wmAttT(bytes(k))
+//@ invariant [existing-old] forall k [48]byte :: k in existingProtection ==> allocated(existingProtection[k])
+//@ invariant [recs] forall k [48]byte :: k in protectionMap ==> recOK(protectionMap[k], k) && fresh(protectionMap[k])
+//@ invariant [blocks] forall i int, j int :: 0 <= i && i < _n && 0 <= j && j < len(protection.Data[i].SignedBlocks) ==> finL(protectionMap, fileKey(protection.Data[i])) >= parsed(protection.Data[i].SignedBlocks[j].Slot)
+//@ invariant [sources] forall i int, j int :: 0 <= i && i < _n && 0 <= j && j < len(protection.Data[i].SignedAttestations) ==> finS(protectionMap, fileKey(protection.Data[i])) >= parsed(protection.Data[i].SignedAttestations[j].SourceEpoch)
+//@ invariant [targets] forall i int, j int :: 0 <= i && i < _n && 0 <= j && j < len(protection.Data[i].SignedAttestations) ==> finT(protectionMap, fileKey(protection.Data[i])) >= parsed(protection.Data[i].SignedAttestations[j].TargetEpoch)
+//@ loop #2
+//@ invariant [range] 0 <= _n && _n <= len(protection.Data[_n1].SignedAttestations) && 0 <= _n1 && _n1 < len(protection.Data) && keyProtection != nil && fresh(keyProtection) && key == fileKey(protection.Data[_n1]) && db == old(db)
+//@ invariant [notyet] forall k [48]byte :: k in protectionMap ==> protectionMap[k] != keyProtection
+//@ invariant [kp] keyProtection.HighestProposedSlot == 0 - 1 && keyProtection.HighestAttestedSourceEpoch >= 0 - 1 && keyProtection.HighestAttestedTargetEpoch >= 0 - 1 && (keyProtection.HighestAttestedSourceEpoch == 0 - 1 ==> keyProtection.HighestAttestedTargetEpoch == 0 - 1 && _n == 0)
+//@ invariant [seen] forall j int :: 0 <= j && j < _n ==> keyProtection.HighestAttestedSourceEpoch >= parsed(protection.Data[_n1].SignedAttestations[j].SourceEpoch) && keyProtection.HighestAttestedTargetEpoch >= parsed(protection.Data[_n1].SignedAttestations[j].TargetEpoch)
+//@ loop #3
+//@ invariant [range] 0 <= _n && _n <= len(protection.Data[_n1].SignedBlocks) && 0 <= _n1 && _n1 < len(protection.Data) && keyProtection != nil && fresh(keyProtection) && key == fileKey(protection.Data[_n1]) && db == old(db)
+//@ invariant [notyet] forall k [48]byte :: k in protectionMap ==> protectionMap[k] != keyProtection
+//@ invariant [kp] keyProtection.HighestProposedSlot >= 0 - 1 && keyProtection.HighestAttestedSourceEpoch >= 0 - 1 && keyProtection.HighestAttestedTargetEpoch >= 0 - 1 && (keyProtection.HighestAttestedSourceEpoch == 0 - 1 ==> keyProtection.HighestAttestedTargetEpoch == 0 - 1 && len(protection.Data[_n1].SignedAttestations) == 0)
+//@ invariant [atts] forall j int :: 0 <= j && j < len(protection.Data[_n1].SignedAttestations) ==> keyProtection.HighestAttestedSourceEpoch >= parsed(protection.Data[_n1].SignedAttestations[j].SourceEpoch) && keyProtection.HighestAttestedTargetEpoch >= parsed(protection.Data[_n1].SignedAttestations[j].TargetEpoch)
+//@ invariant [seen] forall j int :: 0 <= j && j < _n ==> keyProtection.HighestProposedSlot >= parsed(protection.Data[_n1].SignedBlocks[j].Slot)
